@@ -184,8 +184,9 @@ pub fn execute_normal(cpu: &mut Z80, bus: &mut impl Z80Bus, opcode: Opcode, pref
                 U1::N0 => {
                     let addr = cpu.fetch_word(bus, 3);
                     bus.write(addr, cpu.regs.get_acc(), 3);
-                    cpu.regs
-                        .set_mem_ptr(addr.wrapping_add(1) | (cpu.regs.get_acc() as u16) << 8);
+                    cpu.regs.set_mem_ptr(
+                        (addr.wrapping_add(1) & 0xff) | ((cpu.regs.get_acc() as u16) << 8),
+                    );
                 }
                 // LD A, (BC) // 4 + 3 = 7 clocks
                 // [0b00001010] : 0x0A
